@@ -12,5 +12,8 @@ pub mod fs_store;
 
 mod utils;
 
+#[cfg(ldk_verif)]
+pub mod verif;
+
 #[cfg(test)]
 mod test_utils;
